@@ -1,7 +1,143 @@
 package main
 
+import (
+	"bytes"
+	"context"
+	"fmt"
+	"os"
+	"os/exec"
+	"path/filepath"
+	"regexp"
+	"strconv"
+	"strings"
+	"syscall"
+	"time"
+)
+
+var execsRe = regexp.MustCompile(`execs: (\d+)`)
+var newIntRe = regexp.MustCompile(`new interesting: (\d+) \(total: (\d+)\)`)
+
 // runFuzzTargets runs the bounded native `go test -fuzz` campaigns of a property (thorough tier).
-// It returns one note per campaign for the evidence file and the path of a saved crasher ("" = none).
+// Each target runs twice: from the seed corpus registered by f.Add (hostile constants and grammar
+// samples) with the cached corpus of earlier campaigns, and it is reported with its exec count.
+// A campaign cannot be pinned to a seed; the saved crasher is the reproducible unit. It returns one
+// note per campaign for the evidence file and the path of a saved crasher ("" = none).
 func runFuzzTargets(meta *propMeta) ([]map[string]any, string) {
-	return nil, ""
+	var notes []map[string]any
+	crasher := ""
+	seconds := meta.FuzzSeconds
+	if s := os.Getenv("VERIF_FUZZ_SECONDS"); s != "" {
+		if v, err := strconv.Atoi(s); err == nil {
+			seconds = v
+		}
+	}
+	if seconds <= 0 {
+		seconds = 60
+	}
+	pkgDir := filepath.Join(harness, "checks")
+	for _, target := range meta.FuzzTargets {
+		corpusDir := filepath.Join(pkgDir, "testdata", "fuzz", target)
+		before := listFiles(corpusDir)
+		ctx, cancel := context.WithTimeout(context.Background(), time.Duration(seconds+240)*time.Second)
+		cmd := exec.CommandContext(ctx, "go", "test", "-vet=off", "-run", "^$", "-fuzz", "^"+target+"$", "-fuzztime", fmt.Sprintf("%ds", seconds), "./checks")
+		cmd.Dir = harness
+		cmd.Env = append(goEnv(), "VERIF_ROOT="+root)
+		cmd.SysProcAttr = &syscall.SysProcAttr{Setpgid: true}
+		cmd.Cancel = func() error { return syscall.Kill(-cmd.Process.Pid, syscall.SIGKILL) }
+		var buf bytes.Buffer
+		cmd.Stdout, cmd.Stderr = &buf, &buf
+		start := time.Now()
+		err := cmd.Run()
+		cancel()
+		out := buf.String()
+		note := map[string]any{"target": target, "seconds": int(time.Since(start).Seconds()), "budget_seconds": seconds}
+		if m := execsRe.FindAllStringSubmatch(out, -1); len(m) > 0 {
+			n, _ := strconv.Atoi(m[len(m)-1][1])
+			note["execs"] = n
+		}
+		if m := newIntRe.FindAllStringSubmatch(out, -1); len(m) > 0 {
+			n, _ := strconv.Atoi(m[len(m)-1][2])
+			note["corpus_total"] = n
+		}
+		// new files under testdata/fuzz/<target> are crashers written by the fuzzer
+		var fresh []string
+		for f := range listFiles(corpusDir) {
+			if !before[f] {
+				fresh = append(fresh, f)
+			}
+		}
+		switch {
+		case len(fresh) > 0:
+			note["result"] = "crasher found"
+			dir := filepath.Join(root, "replay", meta.ID)
+			os.MkdirAll(dir, 0o755)
+			for _, f := range fresh {
+				dst := filepath.Join(dir, "fuzz-"+target+"-"+filepath.Base(f)+".fuzz")
+				if b, rerr := os.ReadFile(f); rerr == nil {
+					os.WriteFile(dst, b, 0o644)
+					os.WriteFile(strings.TrimSuffix(dst, ".fuzz")+".log", []byte(tail(out, 20000)), 0o644)
+					if crasher == "" {
+						crasher = dst
+						fmt.Println("native fuzz target " + target + " found a failing input:\n" + tail(out, 3000))
+					}
+				}
+				os.Remove(f)
+			}
+		case err != nil && ctx.Err() == context.DeadlineExceeded:
+			note["result"] = "campaign killed after exceeding its wall-clock allowance (inconclusive)"
+		case err != nil:
+			// build failure or infrastructure problem: inconclusive, not a violation
+			note["result"] = "campaign could not run: " + oneLine(tail(out, 600))
+		default:
+			note["result"] = "nothing found"
+		}
+		notes = append(notes, note)
+	}
+	return notes, crasher
+}
+
+func listFiles(dir string) map[string]bool {
+	out := map[string]bool{}
+	entries, err := os.ReadDir(dir)
+	if err != nil {
+		return out
+	}
+	for _, e := range entries {
+		if !e.IsDir() {
+			out[filepath.Join(dir, e.Name())] = true
+		}
+	}
+	return out
+}
+
+// replayFuzz re-runs one saved fuzz input (replay/<id>/fuzz-<Target>-<name>.fuzz) through `go test`.
+func replayFuzz(id string, path string) int {
+	base := strings.TrimSuffix(filepath.Base(path), ".fuzz")
+	parts := strings.SplitN(strings.TrimPrefix(base, "fuzz-"), "-", 2)
+	if len(parts) != 2 {
+		fail2("cannot derive the fuzz target from %s", path)
+	}
+	target, name := parts[0], parts[1]
+	dir := filepath.Join(harness, "checks", "testdata", "fuzz", target)
+	os.MkdirAll(dir, 0o755)
+	dst := filepath.Join(dir, "replay-"+name)
+	b, err := os.ReadFile(path)
+	if err != nil {
+		fail2("reading %s: %v", path, err)
+	}
+	if err := os.WriteFile(dst, b, 0o644); err != nil {
+		fail2("writing %s: %v", dst, err)
+	}
+	defer os.Remove(dst)
+	cmd := exec.Command("go", "test", "-vet=off", "-count=1", "-run", "^"+target+"$/^replay-"+regexp.QuoteMeta(name)+"$", "./checks")
+	cmd.Dir = harness
+	cmd.Env = append(goEnv(), "VERIF_ROOT="+root)
+	out, err := cmd.CombinedOutput()
+	if err == nil {
+		fmt.Printf("replay %s: property held\n", path)
+		return 0
+	}
+	fmt.Println(tail(string(out), 4000))
+	fmt.Printf("VIOLATION property=%s replay=%s\n", id, path)
+	return 1
 }
